@@ -18,7 +18,7 @@
 (* evaluated on the recorded REAL multisets with the physics of the same      *)
 (* graph.  A false clause is written to IOEnv.VERDICT_FILE and the trace      *)
 (* goes on.  Clauses named "drift.*" are not property clauses: they report    *)
-(* that the code and the transcription differ.                                *)
+(* that the code and the transcription differ; "EXT.*" lines are observations.*)
 EXTENDS GraphFormulas
 
 VARIABLES tid, l
@@ -53,6 +53,9 @@ TotalClause(name) ==
 KnownDev(Fcons) ==
     IF Dev_MixedMeterAsConsumerWithoutGridMeter(Fcons)
     THEN <<"Dev_MixedMeterAsConsumerWithoutGridMeter">> ELSE NoDev
+\* KF-C12-3: the cause holds on this graph and the real CHP formula is exactly the transcribed one
+KnownChpDev(Fchp) ==
+    IF Dev_GridMeterAsChpMeter(Fchp) THEN <<"Dev_GridMeterAsChpMeter">> ELSE NoDev
 
 \* clauses on one real call c, S = what the transcription generated for the same formula
 CallChecks(c, S) ==
@@ -64,8 +67,10 @@ CallChecks(c, S) ==
              "C12.Generated", <<c.err, shown>>, NoDev)
     /\ Check(TotalOK(c.name, F), TotalClause(c.name),
              <<"form", Form(F.coef), "true total", TrueTotal(c.name), shown>>,
-             IF c.name = "cons" THEN KnownDev(F) ELSE NoDev)
+             IF c.name = "cons" THEN KnownDev(F) ELSE IF c.name = "chp" THEN KnownChpDev(F) ELSE NoDev)
     /\ Check(FallbackOK(F), "C12.FallbackEqualsPrimary", <<"fallbacks", c.fb, shown>>, NoDev)
+    \* observation (no clause): a fallback stands in for a term that carries unmetered load
+    /\ Check(~FallbackOmitsLoad(F), "EXT.FallbackOmitsUnmeteredLoad", <<"fallbacks", c.fb, shown>>, NoDev)
     /\ Check(F = S, "drift.Transcription", <<"transcription", S.ok, S.coef, S.fb, "real", c.ok, c.fb, shown>>, NoDev)
 
 FinalChecks ==
@@ -89,6 +94,8 @@ Exercised ==
           load |-> \E m \in Nodes : HasLoad(m),
           nested |-> \E m \in Nodes : cat[m] = "METER" /\ parent[m] # 0 /\ cat[parent[m]] = "METER",
           dedicated_meter |-> \E m \in Nodes : Dedicated(m),
+          grid_meter_over_one_device_type |-> \E m \in Nodes : IsTheGridMeter(m) /\ MeterFallback(m) # {},
+          grid_meter_as_chp_meter |-> CauseGridMeterAsChpMeter,
           real_fallbacks |-> Cardinality({<<j, p>> \in (1..Len(Tr.calls)) \X Nodes : Tr.calls[j].fb[p] # <<>>}),
           real_refusals |-> Cardinality({j \in 1..Len(Tr.calls) : ~Tr.calls[j].ok}),
           real_zero_formulas |-> Cardinality({j \in 1..Len(Tr.calls) : Tr.calls[j].ok /\ Tr.calls[j].coef = ZeroVec})]
